@@ -751,6 +751,42 @@ def _container_use(name, funcs):
     return mutated, rebound
 
 
+def _container_use_foreign(name, prog):
+    """Mutations / bindings of <expr>.<name> through a receiver other than
+    `self`, anywhere in the package (bus.py works on its connections through
+    `caller.busNames[...]`, `proto.matchRules...`)."""
+    mutated = []
+    rebound = False
+    for fi in prog.all_funcs.values():
+        for node in ast.walk(fi.node):
+            recv = None
+            if isinstance(node, ast.Call) and \
+                    isinstance(node.func, ast.Attribute) and \
+                    node.func.attr in _MUT and \
+                    isinstance(node.func.value, ast.Attribute) and \
+                    node.func.value.attr == name:
+                recv = node.func.value.value
+                kind_ = 'mut'
+            elif isinstance(node, ast.Subscript) and \
+                    isinstance(node.ctx, (ast.Store, ast.Del)) and \
+                    isinstance(node.value, ast.Attribute) and \
+                    node.value.attr == name:
+                recv = node.value.value
+                kind_ = 'mut'
+            elif isinstance(node, ast.Attribute) and node.attr == name and \
+                    isinstance(node.ctx, ast.Store):
+                recv = node.value
+                kind_ = 'bind'
+            if recv is None or (isinstance(recv, ast.Name) and
+                                recv.id == 'self'):
+                continue
+            if kind_ == 'mut':
+                mutated.append(fi.qualname)
+            else:
+                rebound = True
+    return mutated, rebound
+
+
 def _container_control():
     """the expected count on /repo is zero: prove on every run that the
     rule can see a shared container (and is silent on a rebound one)"""
@@ -825,6 +861,9 @@ def per_instance_registries(ctx, rule_id='C09.D6', modules=C09_MODULES,
             mutated, rebound = _container_use(
                 name, [(fi.qualname, fi.node) for k in prog.subclasses(c)
                        for fi in k.methods.values()])
+            m2, r2 = _container_use_foreign(name, prog)
+            mutated = mutated + m2
+            rebound = rebound or r2
             if not mutated:
                 continue
             n += 1
@@ -839,5 +878,49 @@ def per_instance_registries(ctx, rule_id='C09.D6', modules=C09_MODULES,
                    'mutate(s) in place through self and that is never bound '
                    'on the instance: all instances share ONE container (%s)'
                    % (name, sorted(set(mutated))[:2], consequence))
+    # the same sharing arises from a MUTABLE DEFAULT ARGUMENT that is kept
+    # (self.x = param) or mutated in place: one object for every call
+    for c in prog.all_classes.values():
+        if c.module.name not in modules:
+            continue
+        for fi in c.methods.values():
+            a = fi.node.args
+            pos = a.posonlyargs + a.args
+            pairs = list(zip(pos[len(pos) - len(a.defaults):], a.defaults)) \
+                + [(p_, d_) for p_, d_ in zip(a.kwonlyargs, a.kw_defaults)
+                   if d_ is not None]
+            for prm, d in pairs:
+                mutable = isinstance(d, (ast.List, ast.Dict, ast.Set)) or (
+                    isinstance(d, ast.Call) and isinstance(d.func, ast.Name)
+                    and d.func.id in ('list', 'dict', 'set') and not d.args)
+                if not mutable:
+                    continue
+                kept = mutated = False
+                for node in ast.walk(fi.node):
+                    if isinstance(node, ast.Assign) and \
+                            isinstance(node.value, ast.Name) and \
+                            node.value.id == prm.arg and any(
+                                isinstance(t, ast.Attribute)
+                                for t in node.targets):
+                        kept = True
+                    if isinstance(node, ast.Call) and \
+                            isinstance(node.func, ast.Attribute) and \
+                            node.func.attr in _MUT and \
+                            isinstance(node.func.value, ast.Name) and \
+                            node.func.value.id == prm.arg:
+                        mutated = True
+                    if isinstance(node, ast.Subscript) and \
+                            isinstance(node.ctx, (ast.Store, ast.Del)) and \
+                            isinstance(node.value, ast.Name) and \
+                            node.value.id == prm.arg:
+                        mutated = True
+                n += 1
+                ctx.ob(rule_id, fi.qualname, 'mutable-default:%s' % prm.arg,
+                       not (kept or mutated),
+                       'parameter %s defaults to a mutable object that is '
+                       '%s: every call that omits it works on the SAME '
+                       'object (%s)' % (
+                           prm.arg, 'stored on the instance' if kept
+                           else 'mutated in place', consequence))
     ctx.extra['class_level_containers_checked:%s' % rule_id] = n
     return n
